@@ -47,7 +47,10 @@ func runSession(c *rp.Ctx, cs sessionCase, seg string, lockstep bool) error {
 	a, b := transport.NewPair()
 	a.In.Seg = transport.SegmenterByName(seg, int64(c.Seed)*7919+1)
 	b.In.Seg = transport.SegmenterByName(seg, int64(c.Seed)*7919+2)
-	if err := rtmpx.Handshake(a, b, int64(c.Seed)); err != nil {
+	hsErr := rtmpx.Handshake(a, b, int64(c.Seed))
+	// from here on the replay is single-threaded: whatever a reader needs has been written before
+	a.In.NoBlock, b.In.NoBlock = true, true
+	if err := hsErr; err != nil {
 		return fmt.Errorf("handshake failed: %v", err)
 	}
 	if a.Out.Len() != 3073 || b.Out.Len() != 3073 || a.In.Consumed() != 3073 || b.In.Consumed() != 3073 {
